@@ -41,13 +41,29 @@ Absolutes ==
      [kind |-> "abs", v |-> Fit32(NAdd(P, NFromNat(1)))], [kind |-> "abs", v |-> Fit32(NPow2(253))],
      [kind |-> "abs", v |-> Fit32(NSub(NPow2(253), NFromNat(1)))], [kind |-> "abs", v |-> Fit32(NSub(Two256, NFromNat(1)))],
      [kind |-> "abs", v |-> Fit32(NShr1(NSub(P, NFromNat(1))))], [kind |-> "abs", v |-> Fit32(NSub(P, NFromNat(2)))] >>
-Cases == FlattenSeq([i \in 1..NBases |-> Mutations(Bases[i])]) \o Absolutes
+\* Valid encodings at the edges of the value range: the first few accepted values below and above each
+\* boundary (the modulus itself, and the limb / byte boundaries 2^k).  Found by scanning with DecodeSpec.
+Accepts(v) == NLess(v, P) /\ DecodeSpec(NMod(v, P)) # NoPoint
+RECURSIVE ScanDown(_, _, _, _)
+ScanDown(v, want, budget, acc) ==
+  IF want = 0 \/ budget = 0 \/ ~NLess(NFromNat(1), v) THEN acc
+  ELSE LET w == NSub(v, NFromNat(1)) IN
+       IF Accepts(w) THEN ScanDown(w, want - 1, budget - 1, Append(acc, [kind |-> "edge_valid", v |-> Fit32(w)]))
+       ELSE ScanDown(w, want, budget - 1, acc)
+RECURSIVE ScanUp(_, _, _, _)
+ScanUp(v, want, budget, acc) ==
+  IF want = 0 \/ budget = 0 \/ ~NLess(v, P) THEN acc
+  ELSE IF Accepts(v) THEN ScanUp(NAdd(v, NFromNat(1)), want - 1, budget - 1, Append(acc, [kind |-> "edge_valid", v |-> Fit32(v)]))
+       ELSE ScanUp(NAdd(v, NFromNat(1)), want, budget - 1, acc)
+Boundaries == <<P, NPow2(252), NPow2(248), NPow2(240), NPow2(224), NPow2(192), NPow2(128), NPow2(64), NPow2(32), NPow2(16), NPow2(8)>>
+EdgeValid == FlattenSeq([i \in 1..Len(Boundaries) |-> ScanDown(Boundaries[i], 4, 40, <<>>) \o ScanUp(Boundaries[i], 3, 40, <<>>)])
+Cases == FlattenSeq([i \in 1..NBases |-> Mutations(Bases[i])]) \o Absolutes \o EdgeValid
 PlanRec(i) == LET c == Cases[i] r == DecodeBytes(c.v) IN
   [k |-> "decin", kind |-> c.kind, b |-> c.v, entries |-> IF i <= 300 \/ c.kind = "abs" THEN "all" ELSE "one",
    ok |-> r.ok, err |-> r.err, cls |-> DecodeClass(c.v)]
 ASSUME TLCSet(32, Cases)
 ASSUME ndJsonSerialize(IOEnv.PLAN_OUT, [i \in 1..Len(TLCGet(32)) |-> LET c == TLCGet(32)[i] r == DecodeBytes(c.v) IN
-         [k |-> "decin", kind |-> c.kind, b |-> c.v, entries |-> IF i <= 300 \/ c.kind = "abs" THEN "all" ELSE "one",
+         [k |-> "decin", kind |-> c.kind, b |-> c.v, entries |-> IF i <= 300 \/ c.kind \in {"abs", "edge_valid"} THEN "all" ELSE "one",
           ok |-> r.ok, err |-> r.err, cls |-> DecodeClass(c.v)]])
 ASSUME PrintT(<<"PLAN-WRITTEN", Len(TLCGet(32))>>)
 VARIABLE x
